@@ -184,7 +184,7 @@ EXPORT int swprintf_s(wchar_t *restrict dest, rsize_t dmax,
             goto nospc;
         errno = 0;
         if (likely(dmax < 512)) { /* stacksize 2k */
-            static wchar_t tmp[512];
+            wchar_t tmp[512];
             va_start(ap2, fmt);
             ret = vswprintf(tmp, 512, fmt, ap2);
             va_end(ap2);
